@@ -906,6 +906,43 @@ func (c *Ctx) c01Goroutines() {
 					}
 				}
 				r.Check(bad == "", "R01.3", key, c.P.Pos(g.Pos()), "writes only map[ownIndex] under the mutex", "a goroutine of block execution "+bad+": the result depends on the completion order of the goroutines")
+				// a variable the goroutine captures by reference must not be overwritten by the spawner while the
+				// goroutine may still read it (the module's go directive predates per-iteration loop variables:
+				// a captured range variable is shared by all iterations)
+				isWait := func(x ssa.Instruction) bool {
+					call, ok := x.(ssa.CallInstruction)
+					return ok && core.CalleeName(call) == "(*sync.WaitGroup).Wait"
+				}
+				after := core.Reach([]core.Point{core.After(g)}, isWait, nil)
+				shared := ""
+				for bi, bnd := range mc.Bindings {
+					al, isAlloc := bnd.(*ssa.Alloc)
+					if !isAlloc || bi >= len(cl.FreeVars) {
+						continue
+					}
+					read := false
+					for _, f := range core.WithClosures(cl) {
+						for _, bb := range f.Blocks {
+							for _, x := range bb.Instrs {
+								if u, ok := x.(*ssa.UnOp); ok && u.Op == token.MUL {
+									if fv, ok := u.X.(*ssa.FreeVar); ok && fv.Name() == cl.FreeVars[bi].Name() {
+										read = true
+									}
+								}
+							}
+						}
+					}
+					if !read {
+						continue
+					}
+					for _, st := range core.StoreInstrsInto(al) {
+						if st.Parent() == fn && after.Has(st) {
+							shared = al.Comment + " (overwritten at " + c.P.Pos(st.Pos()) + ")"
+						}
+					}
+				}
+				r.Check(shared == "", "R01.3", key+" reads no variable the spawner keeps writing", c.P.Pos(g.Pos()), "every captured variable is written only before the goroutine starts or after the join",
+					"the goroutine reads the captured variable "+shared+" while the spawning loop overwrites it: which value it sees - e.g. which transaction it verifies - depends on scheduling, so replicas disagree")
 			}
 		}
 	}
